@@ -173,6 +173,8 @@ type histRunner struct {
 	final     map[int]string
 	verbose   bool
 	skipHeavy bool
+	// threeContainers: the data set gives one metric more than 131072 series (big case)
+	threeContainers bool
 }
 
 func (h *histRunner) log(format string, args ...interface{}) {
@@ -666,6 +668,16 @@ func (h *histRunner) check(q *queryCase) *observation {
 	h.flagged[q.ID] = true
 	w := witness(map[string]interface{}{"missing": trunc(d.Missing, 20), "extra": trunc(d.Extra, 20), "wrong_sum": trunc(d.WrongSum, 20),
 		"expected_groups": len(exp), "returned_groups": len(o.Groups)})
+	// explanation 0: a forward-index entry of a table file that spans three roaring containers is read with a wrong
+	// offset table (index/v1/forward_reader.go NewTagForwardReader: lut[idx+1] holds the cardinality of container idx, not
+	// the running sum), so every series of the third container gets the tag values of other series. With the labels
+	// wrong, neither the identification through uid nor any projection can be judged in this regime.
+	if h.threeContainers && h.idx.Files > 0 {
+		h.res.violation("C10/groupby/forward-index-entry-spanning-3-containers",
+			fmt.Sprintf("%s [%s]: the metric has series ids >= 131072 and its forward index is (partly) in table files: group-by tag values of the series of the third container "+
+				"are taken from other series (missing %v, extra %v, wrong sum %v): %s", h.caseID, st, trunc(d.Missing, 4), trunc(d.Extra, 4), trunc(d.WrongSum, 2), q.SQL), w)
+		return o
+	}
 	// explanation 1: atoms with the same Rewrite() text share one lookup result
 	if q.Twins {
 		te := newTwinEvaluator(h.ev, q.Cond)
